@@ -5,6 +5,7 @@
 package gate
 
 import (
+	"bytes"
 	"encoding/json"
 	"fmt"
 	"sync"
@@ -28,13 +29,23 @@ type World struct {
 	OnRelease func(caller int, op string, key string)
 	// OnDone is called after the operation was executed.
 	OnDone func(caller int, op string, key string, err error)
+	// Batch: whenever the scheduler releases a write while another caller is parked at a write too, the two proposals are applied by
+	// ONE Update call of the state machine (what raft does with proposals that are committed together); each caller still gets its own
+	// result.  During such a step Peek answers from a replica that applies the two entries one after the other, so that hooks observe
+	// the state "at the write point" of each entry.
+	Batch   bool
+	Batched int // number of batched steps taken
+	shadow  *kv.LFSM
+	// Direct: no scheduler - operations execute at once on the calling goroutine (for checks that run real goroutines against the store)
+	Direct bool
 }
 
 type event struct {
 	caller  int
 	kind    string // "gate" | "finished"
 	op, key string
-	proceed chan struct{}
+	update  *kv.Update // writes: the proposal
+	proceed chan *sm.Result
 }
 
 func NewWorld() *World {
@@ -43,7 +54,11 @@ func NewWorld() *World {
 
 // Peek reads a key without scheduling (oracle use only).
 func (w *World) Peek(key string) (kv.Pair, bool) {
-	v, err := w.fsm.Lookup(kv.QueryKey{Key: key})
+	f := w.fsm
+	if w.shadow != nil {
+		f = w.shadow
+	}
+	v, err := f.Lookup(kv.QueryKey{Key: key})
 	if err != nil {
 		return kv.Pair{}, false
 	}
@@ -58,6 +73,23 @@ func (w *World) PeekAll(pattern string) []kv.Pair {
 	return v.([]kv.Pair)
 }
 
+// clone returns a second state machine holding exactly the current content (snapshot + restore).
+func (w *World) clone() (*kv.LFSM, error) {
+	ctx, err := w.fsm.PrepareSnapshot()
+	if err != nil {
+		return nil, err
+	}
+	var buf bytes.Buffer
+	if err := w.fsm.SaveSnapshot(ctx, &buf, nil, nil); err != nil {
+		return nil, err
+	}
+	n := kv.NewLFSM()(1000, 2).(*kv.LFSM)
+	if err := n.RecoverFromSnapshot(bytes.NewReader(buf.Bytes()), nil, nil); err != nil {
+		return nil, err
+	}
+	return n, nil
+}
+
 // Store is one caller's handle; it satisfies the store interfaces of table.Manager.
 type Store struct {
 	W      *World
@@ -67,14 +99,24 @@ type Store struct {
 	lastEr error
 }
 
-func (s *Store) gate(op, key string) {
-	p := make(chan struct{})
-	s.W.events <- event{caller: s.Caller, kind: "gate", op: op, key: key, proceed: p}
-	<-p
+func (s *Store) gate(op, key string) { s.gateW(op, key, nil) }
+
+// gateW parks; for writes the scheduler may hand back the result of a batched application.
+func (s *Store) gateW(op, key string, u *kv.Update) *sm.Result {
+	if s.W.Direct {
+		return nil
+	}
+	p := make(chan *sm.Result)
+	s.W.events <- event{caller: s.Caller, kind: "gate", op: op, key: key, update: u, proceed: p}
+	r := <-p
 	s.lastOp, s.lastKy = op, key
+	return r
 }
 
-func (s *Store) propose(u kv.Update) (sm.Result, error) {
+func (s *Store) propose(u kv.Update, pre *sm.Result) (sm.Result, error) {
+	if pre != nil {
+		return *pre, nil
+	}
 	s.W.mu.Lock()
 	defer s.W.mu.Unlock()
 	s.W.index++
@@ -116,11 +158,22 @@ func (s *Store) GetAll(pattern string) ([]kv.Pair, error) {
 	return v.([]kv.Pair), nil
 }
 
+// GetAllValues mirrors kv.RaftStore.GetAllValues.
+func (s *Store) GetAllValues(pattern string) ([]string, error) {
+	s.gate("getallvalues", pattern)
+	v, err := s.W.fsm.Lookup(kv.QueryAllValues{Pattern: pattern})
+	s.lastEr = err
+	if err != nil {
+		return nil, err
+	}
+	return v.([]string), nil
+}
+
 // Set mirrors kv.RaftStore.Set (same result decoding and error mapping).
 func (s *Store) Set(key, value string, ver uint64) (kv.Pair, error) {
-	s.gate("set", key)
 	pair := kv.Pair{Key: key, Value: value, Ver: ver}
-	res, err := s.propose(kv.Update{Op: kv.UpdateOpSet, KVPair: pair})
+	upd := kv.Update{Op: kv.UpdateOpSet, KVPair: pair}
+	res, err := s.propose(upd, s.gateW("set", key, &upd))
 	if err != nil {
 		s.lastEr = err
 		return kv.Pair{}, err
@@ -139,8 +192,8 @@ func (s *Store) Set(key, value string, ver uint64) (kv.Pair, error) {
 
 // Delete mirrors kv.RaftStore.Delete.
 func (s *Store) Delete(key string, ver uint64) error {
-	s.gate("delete", key)
-	res, err := s.propose(kv.Update{Op: kv.UpdateOpDelete, KVPair: kv.Pair{Key: key, Ver: ver}})
+	upd := kv.Update{Op: kv.UpdateOpDelete, KVPair: kv.Pair{Key: key, Ver: ver}}
+	res, err := s.propose(upd, s.gateW("delete", key, &upd))
 	if err != nil {
 		s.lastEr = err
 		return err
@@ -214,13 +267,73 @@ func (w *World) RunWith(stores []*Store, programs []func(s *Store), schedule []i
 		w.Branching = append(w.Branching, len(ids))
 		id := ids[choice%len(ids)]
 		e := parked[id]
+		// batching: a second parked write joins the released one in a single Update call
+		other := -1
+		if w.Batch && e.update != nil {
+			for _, o := range ids {
+				if o != id && parked[o].update != nil {
+					other = o
+					break
+				}
+			}
+		}
+		if other >= 0 {
+			e2 := parked[other]
+			shadow, err := w.clone()
+			if err != nil {
+				return steps, err
+			}
+			b1, _ := json.Marshal(*e.update)
+			b2, _ := json.Marshal(*e2.update)
+			w.mu.Lock()
+			i1, i2 := w.index+1, w.index+2
+			w.index += 2
+			res, err := w.fsm.Update([]sm.Entry{{Index: i1, Cmd: b1}, {Index: i2, Cmd: b2}})
+			w.mu.Unlock()
+			if err != nil {
+				return steps, err
+			}
+			w.shadow = shadow
+			w.Batched++
+			for k, x := range []struct {
+				id  int
+				e   event
+				idx uint64
+				cmd []byte
+			}{{id, e, i1, b1}, {other, e2, i2, b2}} {
+				delete(parked, x.id)
+				if k == 1 {
+					w.Branching = append(w.Branching, 1) // no choice at this step: the schedule index stays aligned with the step number
+				}
+				w.Trace = append(w.Trace, fmt.Sprintf("caller%d:%s(%s)[batched %d/2]", x.id, x.e.op, x.e.key, k+1))
+				if w.OnRelease != nil {
+					w.OnRelease(x.id, x.e.op, x.e.key)
+				}
+				steps++
+				r := res[k].Result
+				x.e.proceed <- &r
+				if err := wait(); err != nil {
+					w.shadow = nil
+					return steps, err
+				}
+				if _, err := shadow.Update([]sm.Entry{{Index: x.idx, Cmd: x.cmd}}); err != nil {
+					w.shadow = nil
+					return steps, err
+				}
+				if w.OnDone != nil {
+					w.OnDone(x.id, x.e.op, x.e.key, stores[x.id].lastEr)
+				}
+			}
+			w.shadow = nil
+			continue
+		}
 		delete(parked, id)
 		w.Trace = append(w.Trace, fmt.Sprintf("caller%d:%s(%s)", id, e.op, e.key))
 		if w.OnRelease != nil {
 			w.OnRelease(id, e.op, e.key)
 		}
 		steps++
-		e.proceed <- struct{}{}
+		e.proceed <- nil
 		// the released caller executes its operation and runs on until its next gate or the end of its program
 		if err := wait(); err != nil {
 			return steps, err
